@@ -546,9 +546,36 @@ def load_known_findings():
     return [k for k in json.load(open(p)).get("findings", [])]
 
 
+TRANSLATED = {
+    "C02": ["tr_important.py -> Gen/GenImportant.v (prefer_important, is_marked_important, remove_important)"],
+    "C04": ["tr_termination.py -> Gen/GenTermination.v (TerminationCheck)"],
+    "C05": ["tr_regex.py -> Gen/GenRegex.v (every re.compile of rebench/interop, parsed with CPython's re._parser)"],
+    "C06": ["tr_facts.py -> Gen/GenFacts.v (header_iff_empty, persist_locked)"],
+    "C07": ["tr_identity.py -> Gen/GenIdentity.v (as_dict / from_dict / __init__ / __eq__ of six identity classes)"],
+    "C08": ["tr_termination.py -> Gen/GenTermination.v", "tr_facts.py -> Gen/GenFacts.v (load_before_execute, close_in_finally)"],
+    "C09": ["tr_facts.py -> Gen/GenFacts.v (persist_locked)"],
+    "C10": ["tr_termination.py -> Gen/GenTermination.v"],
+    "C11": ["tr_termination.py -> Gen/GenTermination.v", "tr_facts.py -> Gen/GenFacts.v (persist_locked)"],
+    "C12": ["tr_regex.py -> Gen/GenRegex.v"],
+    "C13": ["tr_termination.py -> Gen/GenTermination.v", "tr_facts.py -> Gen/GenFacts.v (build_locked)"],
+    "C14": ["tr_facts.py -> Gen/GenFacts.v (replace_atomic)"],
+    "C15": ["tr_welford.py -> Gen/GenWelford.v (StatisticProperties.add_sample over an abstract arithmetic signature)"],
+    "C16": ["tr_facts.py -> Gen/GenFacts.v (kill_cond, kill_then_raise, nokill_raises, pids_before_kill, collect_recursive)",
+            "tr_termination.py -> Gen/GenTermination.v (classification of exit status -9)"],
+    "C20": ["tr_facts.py -> Gen/GenFacts.v (restore_in_finally)"],
+}
+AXIOM_NOTES = {
+    "C15": "standard-library real-number axioms (ClassicalDedekindReals.sig_forall_dec, sig_not_dec, functional_extensionality_dep, classic)",
+    "C20": "standard-library real-number axioms and Classical_Prop.classic; through the interval tactic the standard library's primitive "
+           "63-bit integers and binary64 floats with the axioms it declares about them (Uint63, PrimInt63, PrimFloat, FloatAxioms, FloatOps)",
+}
+
+
 def trusted_base(prop_id):
-    base = ["Coq 8.16.1 kernel and vm_compute (no native_compute)",
-            "translators in /verif/translator (Python ast / re._parser), regenerated on every run",
-            "correspondence harness /verif/harness (generators, canonicalisation, fake harness binaries)",
+    base = ["Coq 8.16.1 kernel and vm_compute (no native_compute, no extraction)",
+            "translators (fail-closed, regenerated on every run): " + ("; ".join(TRANSLATED[prop_id]) if prop_id in TRANSLATED
+                                                                        else "none for this property: the model is hand-written and tied by correspondence only"),
+            "axioms: " + AXIOM_NOTES.get(prop_id, "none (every property theorem is closed under the global context)"),
+            "correspondence harness /verif/harness (generators, canonicalisation, observers that wrap and call the original, fake harness binaries)",
             "CPython 3.12 and third-party libraries used by ReBench are modelled, not verified"]
     return base
